@@ -517,9 +517,36 @@ fn gen_history(rng: &mut Rng, len: usize, flushes: bool, dist: &mut Dist) -> Vec
     ops
 }
 
+/// a history with few, large writes (for the multi-100-KiB cases)
+fn coarse_history(rng: &mut Rng, len: usize, flushes: bool) -> Vec<Op> {
+    let mut ops = Vec::new();
+    let mut left = len;
+    while left > 0 {
+        let k = 10 + rng.below(9);
+        let n = (1 + rng.below(1 << k)) as usize;
+        let n = n.min(left);
+        ops.push(Op::Write(n));
+        left -= n;
+        if flushes && rng.chance(1, 6) {
+            ops.push(Op::Flush);
+        }
+    }
+    ops
+}
+
 fn small_dict_opts(rng: &mut Rng, lzma2: bool) -> Opts {
     let mut o = gen_opts(rng, lzma2, 1 << 16);
     o.dict = *rng.pick(&[4096u32, 4096, 8192, 16384, 40000, 61440, 65536]);
+    o
+}
+
+/// megabytes of long runs are pathological for BT4 / the optimal parser: keep those cases fast
+fn tame(mut o: Opts, class: &str) -> Opts {
+    if class == "runs" {
+        o.mode = 0;
+        o.mf = 0;
+        o.depth = 4;
+    }
     o
 }
 
@@ -599,11 +626,29 @@ pub fn gen(rng: &mut Rng, tier: &str, dist: &mut Dist) -> Vec<String> {
         let data = gen_data_len(rng, class, *len);
         let hexd = hex(&data);
         let one = vec![Op::Write(data.len())];
-        let o2 = small_dict_opts(rng, true);
-        let b = gen_history(rng, data.len(), false, dist);
+        let o2 = tame(small_dict_opts(rng, true), class);
+        let b = if rng.chance(1, 3) { gen_history(rng, data.len(), false, dist) } else { coarse_history(rng, data.len(), false) };
         dist.bump(&format!("big.{class}.lzma2"));
         cmds.push(format!("pure2 {} 0 0 none {} {} {}", o2.to_string(), hexd, ops_to_string(&one), ops_to_string(&b)));
-        let o1 = small_dict_opts(rng, false);
+        if *class == "runs" && !thorough {
+            let o1 = tame(small_dict_opts(rng, false), class);
+            let lens = gen_partition(rng, "pow2", data.len());
+            let b: Vec<Op> = lens.iter().map(|n| Op::Write(*n)).collect();
+            dist.bump(&format!("big.{class}.lzma1"));
+            cmds.push(format!("pure1 {} {} none {} {} {}", o1.to_string(), rng.below(5), hexd, ops_to_string(&one), ops_to_string(&b)));
+            continue;
+        }
+        // the same through XZWriter, and LZMA2 with flushes / with a chunk size (C07 only: outputs may differ)
+        let ox = tame(small_dict_opts(rng, true), class);
+        let bx = coarse_history(rng, data.len(), false);
+        dist.bump(&format!("big.{class}.xz"));
+        cmds.push(format!("pure2 {} 1 0 none {} {} {}", ox.to_string(), hexd, ops_to_string(&one), ops_to_string(&bx)));
+        let of = tame(small_dict_opts(rng, true), class);
+        let (fa, fb) = (coarse_history(rng, data.len(), true), coarse_history(rng, data.len(), true));
+        let chunk = if rng.chance(1, 2) { 0 } else { 100_000 + rng.below(200_000) };
+        dist.bump(&format!("big.{class}.lzma2.flush{}", if chunk > 0 { ".chunked" } else { "" }));
+        cmds.push(format!("pure2 {} 0 {} none {} {} {}", of.to_string(), chunk, hexd, ops_to_string(&fa), ops_to_string(&fb)));
+        let o1 = tame(small_dict_opts(rng, false), class);
         let lens = gen_partition(rng, "pow2", data.len());
         let b: Vec<Op> = lens.iter().map(|n| Op::Write(*n)).collect();
         dist.bump(&format!("big.{class}.lzma1"));
@@ -637,6 +682,21 @@ pub fn gen(rng: &mut Rng, tier: &str, dist: &mut Dist) -> Vec<String> {
         let b = vec![Op::Write(start), Op::Flush, Op::Write(data.len() - start)];
         dist.bump("regress.fallback_after_read_ahead");
         cmds.push(format!("pure2 3,0,2,4096,273,1,1,0 0 0 none {} {} {}", hex(&data), ops_to_string(&a), ops_to_string(&b)));
+        // regression class of the repaired reader defect (LZMA2Reader mis-read a stored chunk of
+        // exactly 64 KiB): the same shape of data right at the start, any dictionary size; the
+        // fallback then covers more than 64 KiB and is cut into a 65536-byte and a short chunk
+        let mut d2 = gen_data_len(rng, "random", 1000 + 64_590);
+        d2.extend_from_slice(&tail);
+        let a2 = vec![Op::Write(1000), Op::Flush, Op::Write(d2.len() - 1000)];
+        let mut b2 = vec![Op::Write(1000), Op::Flush];
+        let mut left = d2.len() - 1000;
+        while left > 0 {
+            let n = left.min(4099);
+            b2.push(Op::Write(n));
+            left -= n;
+        }
+        dist.bump("regress.stored_chunk_64k");
+        cmds.push(format!("pure2 3,0,2,1048576,273,1,1,0 0 0 none {} {} {}", hex(&d2), ops_to_string(&a2), ops_to_string(&b2)));
     }
     cmds
 }
